@@ -8,8 +8,9 @@ namespace Rbgp.Enc
 open Rbgp.Enc.Spec
 
 /-- Domain of the master theorem: buildable and encodable messages of every kind; for UPDATEs the IPv4/IPv6
-    unicast/multicast families with room for one entry per frame (progress of the chunk loop); announcements on
-    sessions with 4-octet AS numbers on both sides and without the recorded "IPv4 next hop in MP_REACH" defect. -/
+    unicast/multicast families; announcements on sessions with 4-octet AS numbers on both sides and without the
+    recorded "IPv4 next hop in MP_REACH" defect.  (`encodable` = every entry fits a frame of its own: the chunk
+    loop's progress needs no further side condition.) -/
 def Dom (i : Input) : Bool := domReach i || domUnreach i || domSmall i || domOpen i
 
 /-- **Master theorem.** The C04 reference checker accepts every run of the model on `Dom`, in both build
@@ -64,11 +65,11 @@ theorem Dom_buildable (i : Input) (h : Dom i = true) : buildable i = true ∧ en
   rcases h with ((h | h) | h) | h
   · unfold domReach at h
     split at h
-    · simp only [Bool.and_eq_true] at h; exact ⟨h.1.1.1.1.1.1, h.1.1.1.1.1.2⟩
+    · simp only [Bool.and_eq_true] at h; exact ⟨h.1.1.1.1.1, h.1.1.1.1.2⟩
     · cases h
   · unfold domUnreach at h
     split at h
-    · simp only [Bool.and_eq_true] at h; exact ⟨h.1.1.1.1, h.1.1.1.2⟩
+    · simp only [Bool.and_eq_true] at h; exact ⟨h.1.1.1, h.1.1.2⟩
     · cases h
   · unfold domSmall at h
     split at h
